@@ -169,6 +169,18 @@ class ExternalVariableCollector(NodeVisitor):
         self.funcnames = set()
         self.visit(tree)
         self.used -= self.funcnames
+        # A parameter remains a parameter even if the body rebinds it
+        args = getattr(tree, "args", None)
+        if args is not None:
+            for arg in [
+                *getattr(args, "posonlyargs", []),
+                *args.args,
+                *args.kwonlyargs,
+                args.vararg,
+                args.kwarg,
+            ]:
+                if arg is not None:
+                    self.provenance[arg.arg] = "argument"
 
     def visit_FunctionDef(self, node):
         self.funcnames.add(node.name)
